@@ -97,6 +97,11 @@ op("load_unaligned", "B::load_unaligned(p)", "p", ALL_TYPES)
 op("store_aligned", "(a.store_aligned(q), a)", "Bq", ALL_TYPES)
 op("store_unaligned", "(a.store_unaligned(q), a)", "Bq", ALL_TYPES)
 op("broadcast", "B(s)", "S", ALL_TYPES)
+# bool arrays <-> batch_bool
+op("bool_load_aligned", "xsimd::batch_bool<T, A>::load_aligned(pb)", "x", ALL_TYPES, "M")
+op("bool_load_unaligned", "xsimd::batch_bool<T, A>::load_unaligned(pb)", "x", ALL_TYPES, "M")
+op("bool_store_aligned", "(m.store_aligned(qb), m)", "My", ALL_TYPES, "M")
+op("bool_store_unaligned", "(m.store_unaligned(qb), m)", "My", ALL_TYPES, "M")
 
 
 def entry_name(opn, tid, aid):
@@ -108,7 +113,7 @@ def entry_text(opn, tid, aid):
     T, A = TYPES[tid][0], ARCHS[aid][0]
     B = "xsimd::batch<%s, %s>" % (T, A)
     M = "xsimd::batch_bool<%s, %s>" % (T, A)
-    names = {"B": iter(["a", "b", "c"]), "M": iter(["m", "m2"]), "I": iter(["n"]), "S": iter(["s"]), "p": iter(["p"]), "q": iter(["q"]), "Z": iter(["z", "w"]), "Q": iter(["q"])}
+    names = {"B": iter(["a", "b", "c"]), "M": iter(["m", "m2"]), "I": iter(["n"]), "S": iter(["s"]), "p": iter(["p"]), "q": iter(["q"]), "Z": iter(["z", "w"]), "Q": iter(["q"]), "x": iter(["pb"]), "y": iter(["qb"]), "U": iter(["pu"]), "V": iter(["qu"]), "J": iter(["idx"])}
     Cb = "xsimd::batch<std::complex<%s>, %s>" % (T, A)
     params, prologue = [], []
     for k in kinds:
@@ -132,6 +137,10 @@ def entry_text(opn, tid, aid):
             params.append("%s* %s" % (T, nm))
         elif k == "Q":
             params.append("%s* %s" % (B, nm))
+        elif k == "x":
+            params.append("bool const* %s" % nm)
+        elif k == "y":
+            params.append("bool* %s" % nm)
     if ret.startswith("R:"):
         d = ret[2:]
         if d == "int":
